@@ -27,6 +27,20 @@ type tree struct {
 	aliases   map[string]string // map from alias to namespace e.g. {"c": "a.b.c"}
 	inmsg     bool              // true while parsing children of a message node.
 	attrPos   map[string]ast.Pos // position of the value of each attribute last parsed by parseAttrs.
+	depth     int               // current nesting of blocks and expressions.
+}
+
+// maxNesting bounds how deeply blocks and expressions may nest.  The parser is
+// recursive: without a bound, input that does nothing but open brackets
+// exhausts the goroutine stack, which is fatal to the whole process.
+const maxNesting = 10000
+
+// nest enters one more level of nesting.
+func (t *tree) nest() {
+	t.depth++
+	if t.depth > maxNesting {
+		t.errorf("blocks or expressions are nested more than %d deep", maxNesting)
+	}
 }
 
 // SoyFile parses the input into a SoyFileNode (the AST).
@@ -53,6 +67,7 @@ func SoyFile(name, text string) (node *ast.SoyFileNode, err error) {
 // Terminates when it comes across the given end tag.
 func (t *tree) itemList(until ...itemType) *ast.ListNode {
 	var list *ast.ListNode
+	t.nest()
 	for {
 		var token = t.next()
 		if list == nil {
@@ -60,6 +75,7 @@ func (t *tree) itemList(until ...itemType) *ast.ListNode {
 		}
 		var node, halt = t.textOrTag(token, until)
 		if halt {
+			t.depth--
 			return list
 		}
 		if node != nil {
@@ -855,6 +871,7 @@ var precedence = map[itemType]int{
 // For handling binary operators, we use the Precedence Climbing algorithm described in:
 //   http://www.engr.mun.ca/~theo/Misc/exp_parsing.htm
 func (t *tree) parseExpr(prec int) ast.Node {
+	t.nest()
 	n := t.parseExprFirstTerm()
 	var tok item
 	for {
@@ -867,9 +884,12 @@ func (t *tree) parseExpr(prec int) ast.Node {
 		n = newBinaryOpNode(tok, n, t.parseExpr(q))
 	}
 	if prec == 0 && tok.typ == itemTernIf {
-		return t.parseTernary(n)
+		n = t.parseTernary(n)
+		t.depth--
+		return n
 	}
 	t.backup()
+	t.depth--
 	return n
 }
 
